@@ -179,6 +179,21 @@ def cmp_c16(case, got):
     return bad
 
 
+def cmp_c11(case, got):
+    if got.get("panic") or got.get("error"):
+        return [("building or querying the filterer failed: %s" % got.get("error"), "error")]
+    bad = []
+    cfg = "filters %s ignores %s exts %s whitelist %s ignore-file %s" % (
+        case["filters"], case["ignores"], ["o"] if case["exts"] else [], ["/".join(w) for w in case["whitelist"]], case["ignorefile"])
+    for e, g in zip(case["expect"], got["pass"]):
+        if g is not e["pass"]:
+            ev = " + ".join("%s(%s)" % ("/".join(p["path"]), "typed" if p["ft"] == "known" else "untyped") for p in e["ev"]) or "(no path)"
+            kind = "pass-expected-reject" if g is True else "reject-expected-pass"
+            bad.append(("event %s %s, expected to %s; %s" % (ev, "passes" if g is True else "is rejected" if g is False else g,
+                                                              "pass" if e["pass"] else "be rejected", cfg), kind))
+    return bad
+
+
 def cmp_c19(case, got):
     k = case["kind"]
     if got.get("error"):
@@ -198,6 +213,16 @@ def cmp_c19(case, got):
 
 
 SPECS = {
+    "C11": dict(
+        module="GlobsetVerdict.tla", runner="globset", cmp=cmp_c11, seeded=True, workers=8,
+        nontrivial=lambda c: any(e["pass"] for e in c["expect"]) and any(not e["pass"] for e in c["expect"]),
+        cfgs=dict(quick=["GlobsetVerdict_one.cfg", "GlobsetVerdict_pairs.cfg", "GlobsetVerdict_sample.cfg"],
+                  thorough=["GlobsetVerdict_one.cfg", "GlobsetVerdict_pairs.cfg", "GlobsetVerdict_sample_big.cfg"]),
+        rule="configurations under which at least one probe event passes and at least one is rejected; each configuration is judged on 55 events (no path, 18 single paths typed/untyped, 36 two-path events)",
+        exhaustive=False,
+        assumptions=["GlobsetVerdict.tla is the documented rule; Glob.tla supplies the per-path facts for the 14 patterns of its table, matched against the path itself, rooted at the origin",
+                     "probes are inside the origin; the watchexec 1.x double-slash compatibility branch is exercised as written"],
+    ),
     "C17": dict(
         module="PathSummary.tla", runner="paths", cmp=cmp_c17, seeded=True,
         nontrivial=lambda c: c["common"] != ["none"] and any(c["vars"].values()),
